@@ -16,8 +16,9 @@
 // client protocol of origin/blobclient: a 409 ends the upload as a success),
 // one POST /forcecleanup?ttl_hr=0 with the backend up or in an outage (only while the blob is in the cache) and one
 // restart of the origin process (only while an Add is parked: requests in
-// flight die unanswered, their Add never happens). EVERY order of the enabled
-// actions and parked Adds, with every Add outcome, is executed.
+// flight die unanswered, their Add never happens). With 2 clients EVERY order of
+// the enabled actions and parked Adds, with every Add outcome, is executed; with
+// 3 clients (thorough) every order with <= 4 non-default choices.
 package main
 
 import (
